@@ -790,7 +790,88 @@ def r178(facts, res):
         res.ok(R, 'defer-then-stop', loc_of(b, h), 'each of the %d rounds that defer to a rule\'s production leaves the scan of the current one' % n)
 
 
+def r179(facts, res):
+    """has_path(from, to) is reachability by at least one step - from == to asks for a cycle.  Every edge the search
+    discovers (a rule `p` on the right-hand side of an expanded rule) has to be compared with `to` the first time it is met.
+    Either the comparison cannot be bypassed on the way from the edge to the next symbol, or it is bypassed only for rules
+    marked in a table that is written for nothing but an edge target that has just been compared (mark-on-discovery).  A
+    table that also marks EXPANDED rules marks `from` itself, and the edge that closes a cycle back to `from` is skipped."""
+    R = 'R17.9'
+    bs = [b for b in facts.lib_bodies(['cfgrammar']) if b.name == 'has_path' and (b.impl_of or '').startswith('cfgrammar::yacc::grammar::YaccGrammar<')]
+    if len(bs) != 1:
+        return res.lost(R, 'YaccGrammar::has_path not found')
+    b = bs[0]
+    TO = 3
+    cmps = []
+    for bb, t in b.calls(lambda t: cname(t) in ('eq', 'ne')):
+        roots = [b.op_root(a, through=())[0] for a in t['args']]
+        if TO in roots and len(roots) == 2:
+            other = roots[1 - roots.index(TO)]
+            cmps.append((bb, other))
+    for bb, _i, st in b.stmts():
+        if st['k'] == 'assign' and st['rv'].get('bin') in ('Eq', 'Ne'):
+            roots = [b.op_root(o, through=())[0] for o in (st['rv']['a'], st['rv']['b'])]
+            if TO in roots:
+                cmps.append((bb, roots[1 - roots.index(TO)]))
+    cmps = [(bb, o) for bb, o in cmps if o is not None and o != TO and 'RIdx' in b.lty(o)]
+    if not cmps:
+        return res.lost(R, 'no comparison of a discovered rule with the target in has_path')
+    loops = b.loops()
+    n = 0
+    for cb, P in cmps:
+        ds = [d for d in b.defs().get(P, []) if d[1] == 'stmt']
+        if len(ds) != 1:
+            continue
+        A = ds[0][0]
+        inl = [h for h in loops if A in loops[h]]
+        if not inl:
+            continue
+        n += 1
+        h = min(inl, key=lambda x: len(loops[x]))
+        key = 'edge-compared@L%d' % (n - 1)
+        where = loc_of(b, cb)
+        if A == cb or h not in b.reachable(starts=(A,), avoid={cb}):
+            res.ok(R, key, where, 'every discovered edge is compared with the target before the next symbol is looked at')
+            continue
+        # the comparison can be bypassed: which tables decide that, and what do they mark?
+        skip_blocks = b.reachable(starts=(A,), avoid={cb, h})
+        tables = set()
+        for x in skip_blocks:
+            t = b.term(x)
+            if t['k'] == 'call' and cname(t) == 'index' and t['args']:
+                r = b.op_root(t['args'][0], through=())[0]
+                if r is not None and b.lty(r).startswith('alloc::vec::Vec<bool'):
+                    tables.add(r)
+        bad = []
+        for x, t in b.calls_named('index_mut'):
+            r = b.op_root(t['args'][0], through=())[0]
+            if r not in tables:
+                continue
+            # what is stored through the returned reference, and for which index?
+            dl = t['dest']['l']
+            stores_true = any(st['k'] == 'assign' and st['lhs']['l'] == dl and st['lhs']['p'] == ['deref'] and (op_const(st['rv'].get('use', {})) or {}).get('int') == 1
+                              for y in b.reachable(starts=(t['ret'],)) for st in b.blocks[y]['stmts'])
+            if not stores_true:
+                continue
+            il = op_local(t['args'][1])
+            ir = None
+            for d in b.defs().get(il, []) if il is not None else []:
+                if d[1] == 'call' and cname(d[2]) == 'from' and d[2]['args']:
+                    ir = b.op_root(d[2]['args'][0], through=())[0]
+            if ir != P or not b.dominates(cb, x):
+                bad.append('`%s[%s]` (line %s)' % (b.name_of(r) or '_%d' % r, b.name_of(ir) if ir is not None and b.name_of(ir) else '?', t.get('line')))
+        if not tables:
+            res.bad(R, key, where, 'a discovered edge can reach the next symbol without being compared with the target')
+        elif bad:
+            res.bad(R, key, where, 'an edge to a marked rule is skipped before it is compared with the target, and the mark is also set by %s for a rule that '
+                    'was not just compared: the edge closing a cycle back to `from` is never seen' % ', '.join(sorted(set(bad))))
+        else:
+            res.ok(R, key, where, 'the comparison is skipped only for rules marked right after having been compared (mark on discovery)')
+    res.floor(R, 'edge/target comparisons', n, 1)
+
+
 def run(facts, res):
+    r179(facts, res)
     r178(facts, res)
     r176(facts, res)
     r177(facts, res)
